@@ -24,7 +24,7 @@ SPEC = {
         # the same fuzz cases under valgrind memcheck: uninitialised values reaching a branch, an address or a
         # system call (MemorySanitizer is unusable here: libpng/zlib/iconv are not instrumented)
         {"name": "memcheck", "harness": "c01_decoder_fuzz", "srcs": SRCS, "flavour": "plain", "mode": "fuzz", "valgrind": True,
-         "cases": {"quick": 160, "thorough": 6400}, "budget": 600},
+         "cases": {"quick": 160, "thorough": 6400}, "budget": 150},
     ],
     "min_distinct": 50,
     "min_counters": {
